@@ -34,7 +34,7 @@ func parseExprSafe(src string) (n ast.Node, err error, panicked interface{}) {
 func init() {
 	implOps["astecho"] = func(f []string) string { return "OK " + f[1] }
 	// print: fields = hex source, tree (of that source, as parsed by the generator).
-	implOps["print"] = func(f []string) string {
+	implOps["exprstr"] = func(f []string) string {
 		src, _ := unhx(f[0])
 		n, err, p := parseExprSafe(string(src))
 		if p != nil {
@@ -100,7 +100,7 @@ func genC17(g *G) {
 		if strings.Contains(tree, "(float ") {
 			cl, nomodel = "expr-float", !haveF64
 		}
-		g.Add(Case{Req: req("print", hxs(src), tree), NT: nt, Class: cl, Note: src, NoModel: nomodel})
+		g.Add(Case{Req: req("exprstr", hxs(src), tree), NT: nt, Class: cl, Note: src, NoModel: nomodel})
 		if g.R.Intn(4) == 0 {
 			g.Add(Case{Req: req("astecho", "expr", tree), Class: "echo", Note: "echo " + src})
 		}
